@@ -43,6 +43,18 @@ def hook_measure_ext(interp, fv=None):
     if fv is not None:
         interp.hooks[LM + "LevyMeasure.jump_of_finite_variation"] = lambda it, f, b: ctx.PATH.ghost["fv"]
 
+        def bg(it, f, b):
+            # Blumenthal-Getoor index of the abstract measure: any value in [0, 2] consistent with the variation flag
+            # (finite variation <=> int |x| nu(dx) near 0 finite <=> index < 1 for the power-law families; index 1 itself is
+            # infinite variation)
+            g = ctx.PATH.ghost
+            if "bg" not in g:
+                v = ctx.PATH.fresh("blumenthal_getoor_index", "r")
+                ctx.PATH.assume(And(v >= 0, v <= 2, g["fv"] == (v < 1)))
+                g["bg"] = v
+            return g["bg"]
+        interp.hooks[LM + "LevyMeasure.blumenthal_getoor_index"] = bg
+
 
 # first-moment integrals over the standard regions
 def K_():
@@ -174,6 +186,20 @@ class Representations(Lemma):
         m = copy.deepcopy(battery.models(("hem",))["hem"].levy_model) if hasattr(battery.models(("hem",))["hem"], "levy_model") else None
         if m is None:
             return None
+        # an infinite-variation model at the boundary index (CGMY, y = 1) for the representations that exist for it
+        if "ZERO" not in (r0, r1):
+            from rpylib.model.levymodel.purejump.cgmy import CGMYParameters, CGMYModel
+            mc = CGMYModel(CGMYParameters(c=0.5, g=6.0, m=8.0, y=1.0))
+            tc = mc.levy_triplet
+            try:
+                tc.set_representation(getattr(LR, r0))
+                ac = tc.a
+                tc.set_representation(getattr(LR, r1))
+                tc.set_representation(getattr(LR, r0))
+                if not (abs(tc.a - ac) <= 1e-10):
+                    return (True, {"model": "CGMY y=1", "from": r0, "to": r1, "drift_round_trip": [float(ac), float(tc.a)]})
+            except Exception as e:
+                return (True, {"model": "CGMY y=1", "from": r0, "to": r1, "exception": f"{type(e).__name__}: {e}"})
         t = m.levy_triplet
         t.set_representation(getattr(LR, r0))
         a0 = t.a
